@@ -10,8 +10,9 @@
      Relations::from(Vec<Entry>) of the converted entries / relations.entries() converted back.
 
    The lossless side is NOT re-modelled here.  [to_lossless] runs cone C11's model of
-   RelationBuilder::build (RelEdit.builder_build: Relation::new, set_archqual, set_architectures,
-   add_profile on rowan's mutable trees, variant-independent) on an empty store and reads the
+   RelationBuilder::build (RelEdit.builder_build_v fixed: Relation::new, set_archqual,
+   set_architectures, add_profile on rowan's mutable trees; [fixed] = /repo since 5517d72, where
+   set_architectures and add_profile splice IN PLACE instead of re-rooting) on an empty store and reads the
    tree of the register it filled; the entry and field level use RelEdit.entry_from_relations
    (variant [fixed] = /repo since 40d0dc3: the '|' has kind PIPE) and RelEdit.relations_from_entries.
    [to_lossy] uses cone C10's transcription of the accessors (RelAcc.relation_name / relation_archqual /
@@ -42,8 +43,8 @@ Definition verspec_of (o : option (vconstraint * dversion)) : option (RelEdit.vc
 (* ------------------------------------------------------------------ lossy -> lossless *)
 (* impl From<crate::lossy::Relation> for Relation, the built relation left in register [dst] *)
 Definition to_lossless_m (dst : nat) (r : relation dversion) : RelEdit.M unit :=
-  RelEdit.builder_build dst (r_name r) (verspec_of (r_version r)) (r_archqual r) (r_archs r)
-                        (map (map eprofile_of) (r_profiles r)).
+  RelEdit.builder_build_v RelEdit.fixed dst (r_name r) (verspec_of (r_version r)) (r_archqual r) (r_archs r)
+                          (map (map eprofile_of) (r_profiles r)).
 
 (* the same as a function to the tree: a fresh store, register 0 *)
 Definition to_lossless (r : relation dversion) : res rtree :=
